@@ -79,6 +79,13 @@ fn control_stream_layout(p: Option<u64>, layout: &str) -> Vec<u8> {
     } else {
         vec![(0x01, 0), (0x07, 0), (0x33, 1), (0x08, 1), (0x1f * 3 + 0x21, 5)]
     };
+    // layout u: the limit comes after twelve legal unknown / reserved-for-grease / extension entries (they take no
+    // slot in h3's own list and must not count against any bound on what a peer may send)
+    let companions: Vec<(u64, u64)> = if layout == "u" {
+        (0..12u64).map(|k| if k % 3 == 0 { (0x1f * (k + 7) + 0x21, k) } else { (0x4d44 + k, 1 << (k % 30)) }).collect()
+    } else {
+        companions
+    };
     let mut params: Vec<(u64, u64)> = companions.clone();
     if let Some(v) = p {
         let at = match layout {
